@@ -5,7 +5,7 @@
 set -u
 SD="$(cd "$1" && pwd)"
 WT=/tmp/hf-seed-verify-$$
-export CARGO_TARGET_DIR=/tmp/hf-seed-verify-target
+export CARGO_TARGET_DIR="${CARGO_TARGET_DIR_OVERRIDE:-/tmp/hf-seed-verify-target}"
 git -C /repo worktree add -q --detach "$WT" HEAD || exit 2
 trap 'git -C /repo worktree remove --force "$WT" >/dev/null 2>&1' EXIT
 cd "$WT"
